@@ -10,12 +10,25 @@ impl BlockTransactionsVerifier {
         transactions: &[core::TransactionView],
     ) -> Status {
         let block_short_ids = block.block_short_ids();
+        // The indexes were recorded for the compact block this peer announced, the pending
+        // compact block may be the one another peer announced for the same header.
+        if let Some(index) = indexes
+            .iter()
+            .find(|index| **index as usize >= block_short_ids.len())
+        {
+            return StatusCode::BlockTransactionsLengthIsUnmatchedWithPendingCompactBlock
+                .with_context(format!(
+                    "Index({}) is out of the pending compact block's bound({})",
+                    index,
+                    block_short_ids.len(),
+                ));
+        }
         let missing_short_ids: Vec<packed::ProposalShortId> = indexes
             .iter()
             .filter_map(|index| {
                 block_short_ids
                     .get(*index as usize)
-                    .expect("should never outbound")
+                    .expect("checked above")
                     .clone()
             })
             .collect();
